@@ -52,7 +52,8 @@ def run(ctx):
     rnd = random.Random(ctx.seed)
 
     # MC: exhaustive exploration of the reference model (all four rule sets)
-    ctx.model_check("state/MCStateDB", "state/MCStateDB", timeout=ctx.pick(1800, 3600), name="MCStateDB", workers=4)
+    ctx.model_check("state/MCStateDB", ctx.pick("state/MCStateDB", "state/MCStateDBThorough"), timeout=ctx.pick(1800, 7200),
+                    name="MCStateDB", workers=ctx.pick(4, 8))
     # transient storage, EIP-2929 access list, refund counter and logs under nested snapshots and across transactions
     ctx.model_check("state/MCStateDB", ctx.pick("state/MCStateDBAuxQuick", "state/MCStateDBAux"), timeout=ctx.pick(1800, 3600),
                     name="MCStateDBAux", workers=4)
